@@ -48,7 +48,7 @@ partial def canon (c : Ctx) : Val → String
   | .nil => "nil"
   | .t => "t"
   | .int n => toString n
-  | .float b => "f:" ++ hex16 b
+  | .float b => if f64IsNaN b then "f:nan" else "f:" ++ hex16 b
   | .str _ s =>
     "s:\"" ++ String.ofList ((escapeLine s).toList.flatMap fun ch =>
       if ch = '"' then ['\\', 'q'] else if ch = ' ' then ['\\', '_'] else [ch]) ++ "\""
@@ -73,6 +73,13 @@ where
 structure DState where
   ctx : Ctx := Ctx.initial
   depth : Nat := 12000
+  /-- the evaluator at depth budget `depth`, built once -/
+  ev : Rec := Rec.ofDepth 12000
+
+/-- `eval_string` with a prebuilt evaluator -/
+def evalStringWith (r : Rec) (text : String) : M Val := do
+  let prog ← loadText r 0 text
+  evalProgn r prog
 
 def fmtRes (how : String) (r : Res Val) (c : Ctx) : String :=
   match r with
@@ -108,15 +115,16 @@ def handle (st : DState) (line : String) : DState × String :=
   let (cmd, rest) := splitCmd line
   if cmd = "NEW" then ({ st with ctx := Ctx.initial }, "OK")
   else if cmd = "#" || cmd = "" then (st, "OK")
-  else if cmd = "DEPTH" then ({ st with depth := rest.trimAscii.toString.toNat?.getD 12000 }, "OK")
+  else if cmd = "DEPTH" then (let d := rest.trimAscii.toString.toNat?.getD 12000
+                              { st with depth := d, ev := Rec.ofDepth d }, "OK")
   else if cmd = "EVAL" || cmd = "PRINT" || cmd = "PRINC" || cmd = "ERRFMT" then
     let text := unescapeLine rest
-    let (r, c') := evalString st.depth text st.ctx
+    let (r, c') := evalStringWith st.ev text st.ctx
     let how := if cmd = "PRINT" then "print" else if cmd = "PRINC" then "princ" else "canon"
     ({ st with ctx := c' }, fmtRes how r c')
   else if cmd = "READ" then
     let text := unescapeLine rest
-    let (r, c') := loadText (Rec.ofDepth st.depth) 0 text st.ctx
+    let (r, c') := loadText st.ev 0 text st.ctx
     ({ st with ctx := c' }, fmtRes "canon" r c')
   else if cmd = "BODY" then
     let (n, c) := st.ctx.intern rest.trimAscii.toString
@@ -130,7 +138,7 @@ def handle (st : DState) (line : String) : DState × String :=
     let c := { st.ctx with files := (path, text) :: st.ctx.files.filter (·.1 != path) }
     if cmd = "WRITEFILE" then ({ st with ctx := c }, "OK")
     else
-      let (r, c') := loadFile (Rec.ofDepth st.depth) path c
+      let (r, c') := loadFile st.ev path c
       ({ st with ctx := c' }, fmtRes "canon" r c')
   else if cmd = "FAILAT" then
     let k := rest.trimAscii.toString.toNat?.getD 0
